@@ -301,7 +301,7 @@ def params_dict(
     if a == "Explicit":
         p["active_set_tau"] = draw(st.sampled_from([1e-3, 0.1, 1.0, 10.0]))
     if numeric:
-        p["rho"] = draw(st.sampled_from([1e-8, 1e-2, 1.0, 100.0]))
+        p["rho"] = draw(st.sampled_from([1e-8, 1e-2, 1.0, 100.0, 1e-10]))
         p["lamb_init"] = draw(st.sampled_from([1e-3, 1.0, 1.0, 1e3]))
         p["lamb_inc"] = draw(st.sampled_from([2.0, 4.0]))
         if rare and draw(st.integers(0, 2)) == 0:
